@@ -1,6 +1,6 @@
 (* Properties_C20.v — obligations of property C20 (all four build configurations decode
    identically, modulo charset width).  PARTIAL: see the end of the file. *)
-Require Import ObsRun Lemmas_TabConv Lemmas_Narrow Lemmas_Step Lemmas_WF Lemmas_Sim.
+Require Import ObsRun Lemmas_TabConv Lemmas_Narrow Lemmas_Step Lemmas_WF Lemmas_Sim Lemmas_SimEv.
 Local Open Scope Z_scope.
 
 (* the character graph measured on the non-unicode build: control codes not stored (0x0D = end of
@@ -68,6 +68,29 @@ Theorem C20_initial_related : SR conv_u conv_n init_state init_state.
 Proof. constructor; try reflexivity; apply cellsrel_init. Qed.
 Print Assumptions C20_initial_related.
 
-(* PARTIAL: the callbacks of the two instantiations are not related by a theorem (they follow from
-   the per-field callback theorems of C04, which hold for any table); heap on/off has no counterpart
-   in the model beyond ModelMulti (MNew / MFree). *)
+(* CALLBACKS.  From related states, on every group without narrow collision:
+   - every callback other than PS / RT / PTYN is literally the same event in the two builds (same
+     function, user data, argument, sampled value) — this part needs no hypothesis on characters; *)
+Theorem C20_other_callbacks_identical : forall su sn g, SR conv_u conv_n su sn ->
+  filter nontext (snd (process conv_u lut_g g su)) = filter nontext (snd (process conv_n lut_g g sn)).
+Proof. intros su sn g R. exact (other_events_sim conv_u conv_n lut_g su sn g R). Qed.
+Print Assumptions C20_other_callbacks_identical.
+(* - the PS, RT and PTYN callbacks correspond one to one (evrel: same field, function, user data and
+     argument; the sampled texts have the same length, availability and levels, and characters that
+     are images of the same byte) *)
+Theorem C20_text_callbacks_correspond : forall su sn g, SR conv_u conv_n su sn -> Inv conv_u su -> Inv conv_n sn ->
+  wf_group g -> nocoll_group conv_u conv_n su sn g ->
+  let eu := snd (process conv_u lut_g g su) in let en := snd (process conv_n lut_g g sn) in
+  Forall2 (evrel conv_u conv_n) (filter (isf FPS) eu) (filter (isf FPS) en)
+  /\ Forall2 (evrel conv_u conv_n) (filter (isf FRT) eu) (filter (isf FRT) en)
+  /\ Forall2 (evrel conv_u conv_n) (filter (isf FPTYN) eu) (filter (isf FPTYN) en).
+Proof.
+  intros su sn g R Iu In_ W N. cbv zeta. split; [|split].
+  - exact (ps_events_sim conv_u conv_n lut_g conv_nonzero conv_well_defined conv_space_narrow su sn g R Iu In_ W N).
+  - exact (rt_events_sim conv_u conv_n lut_g conv_nonzero conv_well_defined conv_space_narrow su sn g R Iu In_ W N).
+  - exact (ptyn_events_sim conv_u conv_n lut_g conv_nonzero conv_well_defined conv_space_narrow su sn g R Iu In_ W N).
+Qed.
+Print Assumptions C20_text_callbacks_correspond.
+
+(* PARTIAL: heap on/off has no counterpart in the model beyond ModelMulti (MNew / MFree): that
+   dimension of C20 is decided by running the four real builds on the same scripts. *)
